@@ -20,8 +20,9 @@ func init() {
 		ID:       "C09",
 		Generate: generate,
 		Replay: func(raw json.RawMessage, r *mon.R) {
-			var s string
-			json.Unmarshal(raw, &s)
+			var ms mon.Str
+			json.Unmarshal(raw, &ms)
+			s := string(ms)
 			Check(s, r)
 		},
 		Rule: "inputs: every string of <=4 (quick) / <=5 (thorough) symbols over two 16-symbol alphabets chosen to reach every scanner state, " +
@@ -40,17 +41,41 @@ func init() {
 var alpha1 = []string{"0", "1", "9", ".", "e", "x", "+", "-", "a", "_", "$", "\"", "'", "\\", "/", "!"}
 var alpha2 = []string{"`", "=", "~", "<", "\n", " ", "\xff", "é", ";", "!", "a", "0", ".", "/", "\"", "\\"}
 
+// a third alphabet: carriage return, byte order mark, replacement character,
+// runes whose low byte looks like ASCII white space, 4-byte runes
+var alpha3 = []string{"\r", "\ufeff", "\ufffd", "\u2020", "\u0420", "😊", "\"", "\\", "a", ";", "/", "\n", "'", "0", "x", "\u00a0"}
+
 var lexemes = []string{"a", "b1", "_x", "$left", "and", "or", "in", "by", "let", "`q`", "`a``b`", "`", "'s'", "\"t\"", "'a\\'b'", "\"\\n\"", "'", "\"",
 	"0", "007", "1.5", ".5", "5.", "1e3", "1E-2", "1e", "0x1F", "0x", "0xg", "0e0", "1.2.3", "..", ".", ",", "|", "(", ")", "[", "]", "+", "-", "*", "/", "%",
-	"=", "==", "=~", "!=", "!~", "!", "<", "<=", ">", ">=", ";", "//c\n", "// c", "\n", " ", "\t", "\\", "é", "\xff", "\x00", "~", "#", "@", "{", "}", "^", "&", "\u00a0", "\u2028"}
+	"=", "==", "=~", "!=", "!~", "!", "<", "<=", ">", ">=", ";", "//c\n", "// c", "\n", " ", "\t", "\\", "é", "\xff", "\x00", "~", "#", "@", "{", "}", "^", "&", "\u00a0", "\u2028",
+	"\r", "\r\n", "\ufeff", "\ufffd", "\u2020", "\u0420", "\u010d", "三", "😊", "\v", "\f", "\u0085",
+	"0x000000000000000ff", "0x0ffffffffffffffff", "0x10000000000000000", "0x00000000000000000000000000000001", "0xffffffffffffffff", "00000000000000000000000000000000001", "1e00000000000000000001",
+	"'a\\\r", "\"b\\", "'c\\\n", "`d\r`", "'e\rf'"}
 
 func generate(w *mon.W) {
 	maxLen := w.Pick(4, 6)
-	for _, al := range [][]string{alpha1, alpha2} {
-		gen.EnumStrings(al, maxLen, func(s string) bool {
+	for ai, al := range [][]string{alpha1, alpha2, alpha3} {
+		ml := maxLen
+		if ai == 2 && ml > 5 {
+			ml = 5
+		}
+		gen.EnumStrings(al, ml, func(s string) bool {
 			w.Do(s, func(r *mon.R) { Check(s, r) })
 			return !w.Stopped()
 		})
+	}
+	// every Unicode code point (and every surrogate/invalid encoding of its
+	// number) between two tokens: rune classification and error-token extents
+	for r := rune(0); r <= 0x10FFFF; r++ {
+		if w.Stopped() {
+			break
+		}
+		s := "a" + string(r) + "1"
+		if r >= 0xD800 && r <= 0xDFFF {
+			// surrogates cannot be encoded: use the raw 3-byte form
+			s = "a" + string([]byte{0xED, byte(0xA0 | (r>>6)&0x1F), byte(0x80 | r&0x3F)}) + "1"
+		}
+		w.Do(s, func(r *mon.R) { Check(s, r) })
 	}
 	// prefixes of corpus programs: end of input in every scanner state
 	for _, p := range gen.Seeds() {
@@ -92,7 +117,7 @@ func knownKey(s string) string { return "" }
 
 // Check decides one input.
 func Check(s string, r *mon.R) {
-	r.Case = s
+	r.Case = mon.Str(s)
 	got, o := mon.Scan(s)
 	if o.Anomalous() {
 		r.Inconclusive("foreign_scan_" + map[bool]string{true: "hang", false: "panic"}[o.Hung])
